@@ -128,7 +128,7 @@ func bigCmds(r *rand.Rand, total int, tag string) [][]string {
 // stall-<stage>: drop the replication connections, let the leader acknowledge writes, and hold (or refuse) the
 // follower's reconnect at that stage of the handshake while its caught_up / HEALTHZ answers are sampled
 var stallFaults = []string{"stall-dial", "stall-reject", "stall-server", "stall-md5", "stall-replconf", "stall-aof"}
-var faults = []string{"restart-kill", "restart-term", "killconn", "shrink", "pause", "stall"}
+var faults = []string{"restart-kill", "restart-term", "killconn", "shrink", "pause", "stall", "leader-restart", "leader-lost-tail"}
 
 func genScenario(r *rand.Rand, i int, large bool) Scenario {
 	sc := Scenario{Name: fmt.Sprintf("gen-%d", i), Large: large}
@@ -183,7 +183,8 @@ func boundaryScenario(r *rand.Rand, name string) Scenario {
 	return Scenario{Name: name, Init: "boundary", Large: true, PrefixCut: 0.9 + 0.1*float64(r.Intn(2)),
 		Pre: append(genCmds(r, 3), bigCmds(r, 380<<10, "L")...), Post: bigCmds(r, 150<<10+r.Intn(200<<10), "M"),
 		Steps: []Step{{Fault: "follow", Stall: 0.5}, {Fault: "restart-kill", Writes: genCmds(r, 3), Stall: 0.5},
-			{Fault: "stall-md5", Writes: genCmds(r, 3), Stall: -1}}}
+			{Fault: "stall-md5", Writes: genCmds(r, 3), Stall: -1},
+			{Fault: "leader-lost-tail", Writes: genCmds(r, 3), Stall: -1}}}
 }
 
 // corpus: the witnesses of finding F9 and hand-written cases, run first on every tier.
@@ -210,6 +211,12 @@ func corpusScenarios() []Scenario {
 				{Fault: "stall-replconf", Writes: [][]string{{"SET", "fleet", "e", "POINT", "4", "6"}}, Stall: -1},
 				{Fault: "stall-md5", Writes: [][]string{{"SET", "fleet", "f", "POINT", "4", "7"}}, Stall: -1},
 				{Fault: "stall-aof", Writes: [][]string{{"SET", "fleet", "g", "POINT", "4", "8"}}, Stall: 0.5}}},
+		{Name: "corpus-leader-restart-and-lost-tail", Init: "empty",
+			Pre: [][]string{{"SET", "fleet", "a", "POINT", "2", "2"}, {"SET", "fleet", "b", "POINT", "3", "3"}, {"SET", "zone", "z", "STRING", "v"}},
+			Steps: []Step{{Fault: "follow", Stall: -1},
+				{Fault: "leader-restart", Writes: [][]string{{"SET", "fleet", "c", "POINT", "4", "4"}}, Stall: 0.5},
+				{Fault: "leader-lost-tail", Writes: [][]string{{"SET", "fleet", "d", "POINT", "5", "5"}, {"DEL", "fleet", "a"}}, Stall: 0.5},
+				{Fault: "leader-lost-tail", Writes: [][]string{{"SET", "fleet", "e", "POINT", "6", "6"}}, Stall: -1}}},
 		{Name: "corpus-prefix-all-faults", Init: "prefix", PrefixCut: 0.5,
 			Pre: [][]string{{"SET", "fleet", "a", "FIELD", "speed", "3", "POINT", "2", "2"}, {"SET", "fleet", "b", "POINT", "3", "3"}, {"SET", "zone", "z", "STRING", "a*b"},
 				{"DEL", "fleet", "a"}, {"SETCHAN", "c0", "NEARBY", "fleet", "FENCE", "POINT", "1", "1", "100"}, {"RENAME", "zone", "k"}},
